@@ -35,7 +35,7 @@ pub const STATES: [&str; 4] = ["initial", "transfer pending", "transferred to P"
 /// number of privileged variants per contract
 pub fn n_variants(contract: u8) -> u8 {
     match contract {
-        0 => 8,  // 5 UpdateConfig shapes + 3 ownership actions
+        0 => 10, // 5 UpdateConfig shapes + 3 ownership actions + 2 locked deposits topping up a named position
         1 => 19, // 10 UpdateConfig fields + 3 ownership actions + 2 farm + 4 position
         2 => 4,  // UpdateConfig + 3 ownership actions
         _ => 3,  // 3 ownership actions
@@ -69,7 +69,7 @@ struct Setup {
 }
 
 fn setup() -> Setup {
-    let cfg = FCfg { fee_variant: 0, fee_amount: 0, max_farms: 2, penalty_bp: 1000, n_lp: 1 };
+    let cfg = FCfg { fee_variant: 0, fee_amount: 0, max_farms: 2, penalty_bp: 1000, n_lp: 2 };
     let mut sim = FarmSim::new(&cfg, FMon::default());
     let o = sim.w.owner.clone();
     let p = sim.w.users[3].clone();
@@ -224,6 +224,30 @@ impl Engine for Matrix {
             PosExpand,
             PosClose,
             PosWithdraw,
+            /// a locked deposit through the pool manager that names an existing position
+            PmTopUp,
+        }
+        let pool0 = s.sim.pool_ids[0].clone();
+        let pool_denoms: Vec<String> = s.sim.w.pool(&pool0).map(|i| i.pool_info.assets.iter().map(|c| c.denom.clone()).collect()).unwrap_or_default();
+        // interference (odd payloads): before a farm / position cell is probed, a stranger tries to
+        // take the identifier over - a farm of the same identifier on another LP token, a position
+        // of the same identifier for themselves. Whatever happens to those attempts, the role
+        // table below must still describe who may act on the original farm and position.
+        if c.contract % 4 == 1 && c.payload % 2 == 1 {
+            let stranger = s.sim.w.users[0].clone();
+            if (13..=14).contains(&c.variant) && s.sim.lps.len() > 1 {
+                let other_lp = s.sim.lps[1].clone();
+                let r = s.sim.w.farm(
+                    &stranger,
+                    fm::FarmAction::Create { params: fm::FarmParams { lp_denom: other_lp, start_epoch: None, preliminary_end_epoch: None, curve: None, farm_asset: coin(14_000, "uusdc"), farm_identifier: Some("farm".into()) } },
+                    &[coin(14_000, "uusdc")],
+                );
+                st.bump(if r.is_ok() { "interference: farm of the same identifier accepted" } else { "interference: farm of the same identifier refused" });
+            }
+            if (15..=18).contains(&c.variant) {
+                let r = s.sim.w.pos(&stranger, fm::PositionAction::Create { identifier: Some("pos".into()), unlocking_duration: DAY, receiver: None }, &[coin(10, &lp)]);
+                st.bump(if r.is_ok() { "interference: position of the same identifier accepted" } else { "interference: position of the same identifier refused" });
+            }
         }
         let (msg, kind, base_funds): (serde_json::Value, Kind, Vec<Coin>) = match c.contract % 4 {
             0 => match c.variant {
@@ -254,7 +278,25 @@ impl Engine for Matrix {
                 ),
                 5 => (own(action(0, &s.sim.w.users[0]), 0), Kind::Transfer, vec![]),
                 6 => (own(action(1, &p), 0), Kind::Accept, vec![]),
-                _ => (own(action(2, &p), 0), Kind::Renounce, vec![]),
+                7 => (own(action(2, &p), 0), Kind::Renounce, vec![]),
+                v => {
+                    // 8: both assets, 9: one asset (the pool manager swaps half and then calls itself)
+                    let one = v == 9 || pool_denoms.len() < 2;
+                    let f: Vec<Coin> = if one { vec![coin(2000, &pool_denoms[0])] } else { vec![coin(1000, &pool_denoms[0]), coin(1000, &pool_denoms[1])] };
+                    (
+                        serde_json::to_value(pm::ExecuteMsg::ProvideLiquidity {
+                            liquidity_max_slippage: None,
+                            swap_max_slippage: Some(Decimal::percent(50)),
+                            receiver: None,
+                            pool_identifier: pool0.clone(),
+                            unlocking_duration: Some(DAY),
+                            lock_position_identifier: Some(s.pos_id.clone()),
+                        })
+                        .unwrap(),
+                        Kind::PmTopUp,
+                        f,
+                    )
+                }
             },
             1 => match c.variant {
                 v @ 0..=9 => (serde_json::to_value(fm_update(v, c.payload, &s)).unwrap(), Kind::OwnerOnly, vec![]),
@@ -309,7 +351,9 @@ impl Engine for Matrix {
             s.sim.w.bank_send(&donor, &sender, &[coin(5, "uom")]).map_err(|e| format!("[harness] cannot fund sender: {e}"))?;
         }
         let mut funds = base_funds.clone();
-        if c.funds {
+        funds.sort_by(|a, b| a.denom.cmp(&b.denom));
+        // (for the deposits an extra coin would be a third asset: those cells repeat the plain ones)
+        if c.funds && kind != Kind::PmTopUp {
             funds.push(coin(1, "uom"));
             funds.sort_by(|a, b| a.denom.cmp(&b.denom));
         }
@@ -324,6 +368,8 @@ impl Engine for Matrix {
             Kind::PosCreateFor => (sender == w_pm || sender == pos_owner) && !c.funds,
             Kind::PosExpand => (sender == w_pm || sender == pos_owner) && !c.funds,
             Kind::PosClose | Kind::PosWithdraw => sender == pos_owner && !c.funds,
+            // topping up through the delegate is still the position owner's action
+            Kind::PmTopUp => sender == pos_owner,
         };
         let _ = nonpayable;
         let what = Self::describe(c);
@@ -370,7 +416,7 @@ pub fn check(tier: Tier, seed: u64) -> PropReport {
         tier,
         seed,
         "exploration",
-        "complete enumeration of cells (contract in {pool manager, farm manager, epoch manager, fee collector}) x (every privileged message variant: each UpdateConfig field alone and combined, the feature toggle, UpdateOwnership Transfer/Accept/Renounce, farm Expand/Close, position Create-for-receiver/Expand/Close/emergency Withdraw) x (sender role: owner of record, proposed owner, stranger, farm owner, position owner, pool manager contract, farm manager contract) x (ownership state: initial, transfer pending, transferred, renounced) x (funds attached or not), each in a fresh world with a funded pool, a farm and a position; payload values (addresses, fees, durations, toggles) derived from a generated number; oracle: accepted iff the role table written from the property says so (owner-only messages only from the current owner and never with funds; Accept only from the proposed owner; farm Expand only the farm owner, Close the farm owner or the current contract owner; positions only their owner, with the pool manager as the only delegate for creating and topping up); rejected => complete snapshot unchanged; afterwards the Ownership query shows the owner the table predicts (moves only by propose+accept or renounce). Every cell is non-trivial; distinct by cell",
+        "complete enumeration of cells (contract in {pool manager, farm manager, epoch manager, fee collector}) x (every privileged message variant: each UpdateConfig field alone and combined, the feature toggle, UpdateOwnership Transfer/Accept/Renounce, farm Expand/Close, position Create-for-receiver/Expand/Close/emergency Withdraw, and locked deposits through the pool manager - with both assets and with one asset - that name an existing position; on odd payloads a stranger first tries to take the farm's / position's identifier over with a creation of their own) x (sender role: owner of record, proposed owner, stranger, farm owner, position owner, pool manager contract, farm manager contract) x (ownership state: initial, transfer pending, transferred, renounced) x (funds attached or not), each in a fresh world with a funded pool, a farm and a position; payload values (addresses, fees, durations, toggles) derived from a generated number; oracle: accepted iff the role table written from the property says so (owner-only messages only from the current owner and never with funds; Accept only from the proposed owner; farm Expand only the farm owner, Close the farm owner or the current contract owner; positions only their owner, with the pool manager as the only delegate for creating and topping up - and through that delegate only the position's owner tops up); rejected => complete snapshot unchanged; afterwards the Ownership query shows the owner the table predicts (moves only by propose+accept or renounce). Every cell is non-trivial; distinct by cell",
     );
     rep.assumptions = vec!["contracts run natively inside cw-multi-test; any address, including a contract's, can be used as a message sender".into()];
     let payloads: Vec<u32> = match tier {
